@@ -5,6 +5,7 @@
    without remove_silence) over the rows in INPUT order; covers o mt lo n r c = note n occupies
    (row r, frame c); cell_spec = binarised maximum velocity of the covering notes, 0 if none. *)
 From PV Require Import Lib.Base Lib.Round Model.C13 Proofs.C13_lib Proofs.C13 Proofs.C13_pc Proofs.C13_decode.
+From PV Require Import Proofs.C13_round Proofs.C13_more.
 From Coq Require Import QArith Qround Permutation.
 #[local] Open Scope Z_scope.
 
@@ -63,29 +64,49 @@ Theorem rejected_perm_invariant : forall o ns ns', Permutation ns ns' ->
 Proof. exact rejected_perm_lemma. Qed.
 Print Assumptions rejected_perm_invariant.
 
+(* ... also through field selection and drum filtering: reordering the rows of the note array *)
+Theorem compute_pianoroll_perm_invariant : forall c us hv hc rows rows' R, Permutation rows rows' ->
+  compute_pianoroll c (us, hv, hc, rows) = Some R ->
+  exists R', compute_pianoroll c (us, hv, hc, rows') = Some R' /\
+    r_rows R' = r_rows R /\ r_cols R' = r_cols R /\
+    forall r j, cell_at (r_cells R') r j = cell_at (r_cells R) r j.
+Proof. exact compute_pianoroll_perm_lemma. Qed.
+Print Assumptions compute_pianoroll_perm_invariant.
+
+(* the stored cells occupy distinct positions (colliding notes are merged BEFORE the sparse matrix is
+   assembled; a sparse constructor would add duplicates up) *)
+Theorem stored_positions_distinct : forall o ns R, make_pianoroll o ns = Some R ->
+  NoDup (map pos_of_cell (r_cells R)).
+Proof. exact stored_positions_distinct_lemma. Qed.
+Print Assumptions stored_positions_distinct.
+
 (* O4: index row k belongs to input row k (input order) ... *)
 Theorem idx_rows_spec : forall o ns R, make_pianoroll o ns = Some R ->
   r_idx R = map (idx_of o (spec_min_time o ns) (lowest_pitch o ns)) ns.
 Proof. exact idx_rows_lemma. Qed.
 Print Assumptions idx_rows_spec.
 
-(* ... and designates exactly the cells of its note: row, [onset column, offset column) -- in
-   onset-only mode the onset column alone (see idx_onset_only_refuted for the offset column) *)
+(* ... and designates exactly the cells of its note: row, [onset column, offset column) -- in every
+   mode (onset-only included, after the repair of the former known finding C13-K1) *)
 Theorem idx_designates : forall o mt lo n r c,
   let '(r0, a, b, p) := idx_of o mt lo n in
   p = n_pitch n /\
-  (covers o mt lo n r c = true <->
-   r = r0 + pr_start o /\ a <= c /\ (if o_onset_only o then c = a else c < b)).
+  (covers o mt lo n r c = true <-> r = r0 + pr_start o /\ a <= c < b).
 Proof. exact idx_designates_lemma. Qed.
 Print Assumptions idx_designates.
 
-(* known finding C13-K1 (the model carries the code's behaviour): in onset-only mode the offset column
-   of an index row is the nominal offset, so [onset, offset) is NOT the set of filled cells *)
-Theorem idx_onset_only_refuted :
-  exists o ns R, o_onset_only o = true /\ make_pianoroll o ns = Some R /\
-    exists r a b p, In (r, a, b, p) (r_idx R) /\ b <> a + 1.
-Proof. exact idx_onset_only_refuted_lemma. Qed.
-Print Assumptions idx_onset_only_refuted.
+(* onset-only mode: every index row spans exactly its onset frame *)
+Theorem idx_onset_only_one_frame : forall o ns R, make_pianoroll o ns = Some R -> o_onset_only o = true ->
+  forall r a b p, In (r, a, b, p) (r_idx R) -> b = a + 1.
+Proof. exact idx_onset_only_lemma. Qed.
+Print Assumptions idx_onset_only_one_frame.
+
+(* the input of the former known finding: note (60, onset 0, duration 2), time_div 2, onset-only *)
+Theorem example_onset_only_idx :
+  exists R, make_pianoroll (mkOpts 2 true false (-1) 0 false true None false) [(60, 0%Q, 2%Q, 1)] = Some R /\
+    r_idx R = [(60, 0, 1, 60)] /\ r_cols R = 4 /\ cell_at (r_cells R) 60 0 = 1 /\ cell_at (r_cells R) 60 1 = 0.
+Proof. exact example_onset_only_idx_lemma. Qed.
+Print Assumptions example_onset_only_idx.
 
 (* O1 shape: 128 rows, 88 in piano range *)
 Theorem shape_rows_default : forall o ns R, make_pianoroll o ns = Some R -> o_pitch_margin o <= -1 ->
@@ -186,16 +207,65 @@ Proof. exact decode_row_lemma. Qed.
 Print Assumptions decode_row.
 
 (* decode(encode ns), row form: when the runs of the notes of a row, in list order, are non-touching,
-   decoding that row of THEIR roll returns exactly (row, onset frame, end frame, velocity) of each.
-   _partial: stated per row for notes listed in onset order within the row (any order across rows; the
-   roll itself is order-invariant by roll_perm_invariant); the whole-roll multiset form
-   decode_frames (roll ns) ~ ns is not proved -- decode_frames is by definition the sorted
-   concatenation of row_runs over all rows *)
-Theorem decode_encode_row_partial : forall o ns R p,
+   decoding that row of THEIR roll returns exactly (row, onset frame, end frame, velocity) of each *)
+Theorem decode_encode_row : forall o ns R p,
   make_pianoroll o ns = Some R -> o_binary o = false -> 0 <= p < r_rows R ->
   chain 0 (row_boxes o (spec_min_time o ns) (lowest_pitch o ns) ns (p + pr_start o)) (r_cols R) ->
   row_runs (r_cells R) (r_cols R) p =
   map (fun x : run => let '(v, a, b) := x in (p, a, b, v))
       (row_boxes o (spec_min_time o ns) (lowest_pitch o ns) ns (p + pr_start o)).
 Proof. exact decode_encode_row_lemma. Qed.
-Print Assumptions decode_encode_row_partial.
+Print Assumptions decode_encode_row.
+
+(* decode(encode ns), WHOLE roll, any row order: if every two rows of the note list are apart (same
+   roll row => an empty frame between them), all notes lie inside the returned roll and have non-zero
+   velocity, the decoder returns exactly the notes' frames (row, onset frame, end frame, velocity), up
+   to order *)
+Theorem decode_encode_roll : forall o ns R,
+  make_pianoroll o ns = Some R -> o_binary o = false ->
+  (forall n, In n ns -> n_vel n <> 0 /\
+             0 <= row_full o (lowest_pitch o ns) n - pr_start o < r_rows R) ->
+  non_touching o (spec_min_time o ns) (lowest_pitch o ns) ns ->
+  Permutation (decode_frames (r_rows R) (r_cols R) (r_cells R))
+              (map (frame_of o (spec_min_time o ns) (lowest_pitch o ns)) ns).
+Proof. exact decode_encode_roll_lemma. Qed.
+Print Assumptions decode_encode_roll.
+
+(* being non-touching does not depend on the order of the rows *)
+Theorem non_touching_perm_invariant : forall o mt lo ns ns', Permutation ns ns' ->
+  non_touching o mt lo ns -> non_touching o mt lo ns'.
+Proof. exact non_touching_perm. Qed.
+Print Assumptions non_touching_perm_invariant.
+
+(* O6 in the property's words: the roll of grid-aligned, non-touching notes (default mode: no onset-only,
+   no note separation, no margins, not binary; 128 or 88 rows), turned back into a note array at the
+   same resolution, recovers every pitch, onset (counted from the roll's time origin), duration and
+   velocity -- for every note list, in any row order *)
+Theorem roundtrip_recovers_notes : forall o ns R,
+  make_pianoroll o ns = Some R ->
+  o_binary o = false -> o_onset_only o = false -> o_note_sep o = false ->
+  o_pitch_margin o <= -1 -> o_time_margin o = 0 -> 0 < o_time_div o ->
+  (forall n, In n ns -> grid_aligned (o_time_div o) (spec_min_time o ns) n /\ n_vel n <> 0 /\
+                        (o_piano_range o = true -> 21 <= n_pitch n <= 108)) ->
+  non_touching o (spec_min_time o ns) (lowest_pitch o ns) ns ->
+  exists out ns', pianoroll_to_notearray (r_rows R) (r_cols R) (r_cells R) (o_time_div o) = Some out /\
+    Permutation ns ns' /\ Forall2 (recovered (spec_min_time o ns)) out ns'.
+Proof. exact roundtrip_lemma. Qed.
+Print Assumptions roundtrip_recovers_notes.
+
+(* ... and that time origin is 0 (onsets come back as given) without remove_silence when no onset is
+   negative *)
+Theorem time_origin_zero : forall o ns, o_remove_silence o = false ->
+  (forall n, In n ns -> (0 <= n_onset n)%Q) -> spec_min_time o ns = 0%Q.
+Proof. exact spec_min_time_zero. Qed.
+Print Assumptions time_origin_zero.
+
+(* the hypotheses are satisfiable: three rows out of onset order, two on one pitch *)
+Theorem example_roundtrip :
+  exists R, make_pianoroll rt_opts rt_notes = Some R /\
+    non_touching rt_opts (spec_min_time rt_opts rt_notes) (lowest_pitch rt_opts rt_notes) rt_notes /\
+    (forall n, In n rt_notes -> grid_aligned 4 (spec_min_time rt_opts rt_notes) n) /\
+    pianoroll_to_notearray (r_rows R) (r_cols R) (r_cells R) 4 =
+      Some [(64, (0 # 4)%Q, (1 # 4)%Q, 33); (60, (1 # 4)%Q, (3 # 4)%Q, 101); (60, (6 # 4)%Q, (2 # 4)%Q, 80)].
+Proof. exact example_roundtrip_lemma. Qed.
+Print Assumptions example_roundtrip.
